@@ -1,5 +1,61 @@
-import Smooth.Model.Surface
+/-
+C03 — Forward-mode partials equal the true partial derivative.
+
+`fwdG realNum` is the model of `_numeric_partial` (what `Partial(e, v).at(p)` and `Derivative(e).at(p)`
+compute when not computed early).  "True partial derivative" is Mathlib's `HasDerivAt` of the
+denotation `den` along the coordinate `x`, all other coordinates held at the point.
+-/
+import Smooth.Proofs.Forward
+import Smooth.Model.Objects
+
 namespace Smooth
-/-- placeholder while the property file is being written -/
-theorem C03_placeholder : (1 : Nat) = 1 := rfl
+open Expr
+
+/-- **C03.**  On every supplied point of the domain forward mode returns a number, and that number
+is the derivative of `t ↦ ⟦e⟧(ρ[x ↦ t])` at `ρ x` — for every expression (any nesting, any arity,
+every n ≥ 1, every base > 0 including 1 and bases below 1) and every variable name. -/
+theorem fwd_hasDerivAt (p : Point ℝ) (x : String) (e : Expr ℝ) (hwf : WF e) (hs : Supp p e)
+    (hd : Dom (valOf p) e) :
+    ∃ d, fwdG realNum p x e = .ok d ∧
+      HasDerivAt (fun t => den (upd (valOf p) x t) e) d (valOf p x) :=
+  (fwdR_spec p x e hwf).1 hs hd
+
+/-- the value is *the* partial derivative (`deriv` of the coordinate function) -/
+theorem fwd_eq_deriv (p : Point ℝ) (x : String) (e : Expr ℝ) (hwf : WF e) (hs : Supp p e)
+    (hd : Dom (valOf p) e) :
+    fwdG realNum p x e = .ok (deriv (fun t => den (upd (valOf p) x t) e) (valOf p x)) := by
+  obtain ⟨d, h, hder⟩ := fwd_hasDerivAt p x e hwf hs hd
+  rw [h, hder.deriv]
+
+/-- with respect to a variable that does not occur the result is 0 -/
+theorem fwd_not_occurring (p : Point ℝ) (x : String) (e : Expr ℝ) (hwf : WF e) (hs : Supp p e)
+    (hd : Dom (valOf p) e) (hx : ¬ Occurs x e) : fwdG realNum p x e = .ok 0 := by
+  obtain ⟨d, h, hder⟩ := fwd_hasDerivAt p x e hwf hs hd
+  have hconst : (fun t => den (upd (valOf p) x t) e) = fun _ => den (valOf p) e := by
+    funext t; exact den_upd_of_not_occurs (valOf p) e hx t
+  rw [hconst] at hder
+  have := hder.unique (hasDerivAt_const (valOf p x) (den (valOf p) e))
+  rw [h, this]
+
+/-- `Partial(e, x).at(p)` (not computed early, `as_expression()` not yet called) is forward mode -/
+theorem partial_late_at (e : Expr ℝ) (x : String) (p : Point ℝ) :
+    (PartialObj.mk e x none).at realNum p = fwdG realNum p x e := rfl
+
+/-- `Derivative(e).at(p)` is the late `Partial` in the single variable -/
+theorem derivative_late_at (e : Expr ℝ) (p : Point ℝ) :
+    (DerivativeObj.new realNum e false >>= fun D => D.1.at realNum p) =
+      (singleVarName e >>= fun x => fwdG realNum p x e) := by
+  unfold DerivativeObj.new PartialObj.new
+  cases singleVarName e <;> rfl
+
+/-- non-vacuity: a product of three non-trivial factors in which the variable occurs in several
+arguments, an odd root of a negative inner value, and a base below one, at a point of the domain -/
+example :
+    let e : Expr ℝ := mkMul [mkVar "x", mkNRoot (mkMinus (mkVar "x") (mkConst 9)) 3,
+      mkExp (mkVar "x") (1 / 2)]
+    let p : Point ℝ := [("x", 1)]
+    WF e ∧ Supp p e ∧ Dom (valOf p) e := by
+  simp [WF, WFList, Supp, SuppList, Dom, DomList, den, valOf, Point.get?]
+  norm_num
+
 end Smooth
